@@ -283,6 +283,8 @@ pub struct NetCfg {
     pub max_t: u64,
     pub endfail: Vec<String>,
     pub end_emit: bool,
+    /// messages put into the event set from outside before the run
+    pub inject: Vec<Value>,
 }
 
 impl NetCfg {
@@ -299,6 +301,7 @@ impl NetCfg {
             max_t: v["max_t"].as_u64().unwrap(),
             end_emit: v["end_emit"].as_bool().unwrap_or(false),
             endfail: v["endfail"].as_array().map(|a| a.iter().map(|x| x.as_str().unwrap().to_string()).collect()).unwrap_or_default(),
+            inject: v["inject"].as_array().cloned().unwrap_or_default(),
         }
     }
 }
@@ -374,10 +377,10 @@ pub fn run_scenario_stop(cfg: &NetCfg, scripts: &Value, seed: u64, stop: &str) -
         // topology
         let ao = track_gate(sim.gate("a", "out"));
         let bi = track_gate(sim.gate("b", "in"));
-        ao.connect(bi, channel(cfg, "1"));
+        ao.clone().connect(bi, channel(cfg, "1"));
         let bo = track_gate(sim.gate("b", "out"));
         let ai = track_gate(sim.gate("a", "in"));
-        bo.connect(ai, None);
+        bo.clone().connect(ai, None);
         if cfg.topo == "T2" {
             let o2 = track_gate(sim.gate("a", "o2"));
             let ct = track_gate(sim.gate("c", "t"));
@@ -393,23 +396,43 @@ pub fn run_scenario_stop(cfg: &NetCfg, scripts: &Value, seed: u64, stop: &str) -
         rd.connect(ra, None);
         let limit = SimTime::from_duration(Duration::from_nanos(cfg.tick_ns) * cfg.max_t as u32 + Duration::from_nanos(cfg.tick_ns / 2));
         let k: usize = stop.split(':').nth(1).and_then(|x| x.parse().ok()).unwrap_or(0);
+        // messages injected from outside between build and start (Runtime::handle_message_on / add_message_onto)
+        let (ma, mb) = (ao.owner(), bo.owner());
+        let (gao, gbo) = (ao.clone(), bo.clone());
+        let inject = |rt: &mut Runtime<Sim<()>>| {
+            for (i, x) in cfg.inject.iter().enumerate() {
+                let bytes = cfg.bytes[x["size"].as_u64().unwrap() as usize] - 64;
+                let msg = Message::default().id(501 + i as u16).kind(x["eat"].as_u64().unwrap() as u16).with_content(Payload { bytes, _life: Life::new(2) });
+                let at = SimTime::from_duration(Duration::from_nanos(cfg.tick_ns) * x["t"].as_u64().unwrap() as u32);
+                if x["k"] == "msg" {
+                    let m = if x["m"] == "a" { ma.clone() } else { mb.clone() };
+                    rt.handle_message_on(m, msg, at);
+                } else {
+                    let g = if x["g"] == "ao" { gao.clone() } else { gbo.clone() };
+                    rt.add_message_onto(g, msg, at);
+                }
+            }
+        };
         if stop == "never" {
             let rt = Builder::seeded(seed).quiet().max_time(limit).build(sim.freeze());
             drop(rt);
             return None;
         }
         if stop.starts_with("events") {
-            let rt = Builder::seeded(seed).quiet().max_itr(k).build(sim.freeze());
+            let mut rt = Builder::seeded(seed).quiet().max_itr(k).build(sim.freeze());
+            inject(&mut rt);
             return Some(rt.run());
         }
         if stop.starts_with("manual") {
             let mut rt = Builder::seeded(seed).quiet().max_time(limit).build(sim.freeze());
+            inject(&mut rt);
             rt.start();
             rt.dispatch_n_events(k);
             drop(rt);
             return None;
         }
-        let rt = Builder::seeded(seed).quiet().max_time(limit).build(sim.freeze());
+        let mut rt = Builder::seeded(seed).quiet().max_time(limit).build(sim.freeze());
+        inject(&mut rt);
         Some(rt.run())
     }));
     let mut out = Outcome { gates_alive: 0, channels_alive: 0, log: Vec::new(), err: BTreeSet::new(), tend: -1, result_ok: false, live_after_drop: [0; 3], dropped_twice: 0, panicked: false, dead: Default::default() };
